@@ -317,6 +317,20 @@ func c18R5(prog *Prog, pk interface{}, fs map[string]*FuncInfo, r *Report) {
 		}
 		for _, l := range cc.List {
 			c, ok := qualifiedObj(info, l).(*types.Const)
+			if ok && c.Pkg() != nil && c.Pkg().Path() == "go/constant" && c.Name() == "Float" {
+				// the printed literal is compared with the exact value (and replaced when it differs)
+				verified := false
+				for _, s := range cc.Body {
+					ast.Inspect(s, func(m ast.Node) bool {
+						if call, ok := m.(*ast.CallExpr); ok && isCallTo(info, call, "go/constant.Compare") {
+							verified = true
+						}
+						return true
+					})
+				}
+				r.Check(verified, "R18.5", "fixConst/Float", prog.pos(cc.Pos()), "the printed float literal is checked against the exact value",
+					"fixConst prints Float constants from a binary rounding without comparing the result with the exact value: constants such as math.Pi are emitted with digits the source does not have (the bound constant differs from the library's)")
+			}
 			if !ok || c.Pkg() == nil || c.Pkg().Path() != "go/constant" || (c.Name() != "String" && c.Name() != "Int") {
 				continue
 			}
